@@ -87,59 +87,64 @@ Record song := mkSong {
   s_vars : list (list ch * vval);
   s_rhythm : list (Z * list ch);
   s_rand_seed : Z;                (* rand_seed (u32) *)
-  s_device : Z                    (* device_number (u8) *)
+  s_device : Z;                   (* device_number (u8) *)
+  s_ja : bool                     (* message_data: the message language (false = MessageLang::EN, true = JA) *)
 }.
 
 Definition s_set_tracks (s : song) (v : list track) : song :=
-  mkSong v (s_cur s) (s_timebase s) (s_key_flag s) (s_key_shift s) (s_use_key_shift s) (s_v_add s) (s_q_add s) (s_harmony_flag s) (s_harmony_time s) (s_harmony_events s) (s_octave_once s) (s_break_flag s) (s_tempo s) (s_timesig_frac s) (s_timesig_deno s) (s_measure_shift s) (s_play_from s) (s_lineno s) (s_logs s) (s_vars s) (s_rhythm s) (s_rand_seed s) (s_device s).
+  mkSong v (s_cur s) (s_timebase s) (s_key_flag s) (s_key_shift s) (s_use_key_shift s) (s_v_add s) (s_q_add s) (s_harmony_flag s) (s_harmony_time s) (s_harmony_events s) (s_octave_once s) (s_break_flag s) (s_tempo s) (s_timesig_frac s) (s_timesig_deno s) (s_measure_shift s) (s_play_from s) (s_lineno s) (s_logs s) (s_vars s) (s_rhythm s) (s_rand_seed s) (s_device s) (s_ja s).
 Definition s_set_cur (s : song) (v : nat) : song :=
-  mkSong (s_tracks s) v (s_timebase s) (s_key_flag s) (s_key_shift s) (s_use_key_shift s) (s_v_add s) (s_q_add s) (s_harmony_flag s) (s_harmony_time s) (s_harmony_events s) (s_octave_once s) (s_break_flag s) (s_tempo s) (s_timesig_frac s) (s_timesig_deno s) (s_measure_shift s) (s_play_from s) (s_lineno s) (s_logs s) (s_vars s) (s_rhythm s) (s_rand_seed s) (s_device s).
+  mkSong (s_tracks s) v (s_timebase s) (s_key_flag s) (s_key_shift s) (s_use_key_shift s) (s_v_add s) (s_q_add s) (s_harmony_flag s) (s_harmony_time s) (s_harmony_events s) (s_octave_once s) (s_break_flag s) (s_tempo s) (s_timesig_frac s) (s_timesig_deno s) (s_measure_shift s) (s_play_from s) (s_lineno s) (s_logs s) (s_vars s) (s_rhythm s) (s_rand_seed s) (s_device s) (s_ja s).
 Definition s_set_timebase (s : song) (v : Z) : song :=
-  mkSong (s_tracks s) (s_cur s) v (s_key_flag s) (s_key_shift s) (s_use_key_shift s) (s_v_add s) (s_q_add s) (s_harmony_flag s) (s_harmony_time s) (s_harmony_events s) (s_octave_once s) (s_break_flag s) (s_tempo s) (s_timesig_frac s) (s_timesig_deno s) (s_measure_shift s) (s_play_from s) (s_lineno s) (s_logs s) (s_vars s) (s_rhythm s) (s_rand_seed s) (s_device s).
+  mkSong (s_tracks s) (s_cur s) v (s_key_flag s) (s_key_shift s) (s_use_key_shift s) (s_v_add s) (s_q_add s) (s_harmony_flag s) (s_harmony_time s) (s_harmony_events s) (s_octave_once s) (s_break_flag s) (s_tempo s) (s_timesig_frac s) (s_timesig_deno s) (s_measure_shift s) (s_play_from s) (s_lineno s) (s_logs s) (s_vars s) (s_rhythm s) (s_rand_seed s) (s_device s) (s_ja s).
 Definition s_set_key_flag (s : song) (v : list Z) : song :=
-  mkSong (s_tracks s) (s_cur s) (s_timebase s) v (s_key_shift s) (s_use_key_shift s) (s_v_add s) (s_q_add s) (s_harmony_flag s) (s_harmony_time s) (s_harmony_events s) (s_octave_once s) (s_break_flag s) (s_tempo s) (s_timesig_frac s) (s_timesig_deno s) (s_measure_shift s) (s_play_from s) (s_lineno s) (s_logs s) (s_vars s) (s_rhythm s) (s_rand_seed s) (s_device s).
+  mkSong (s_tracks s) (s_cur s) (s_timebase s) v (s_key_shift s) (s_use_key_shift s) (s_v_add s) (s_q_add s) (s_harmony_flag s) (s_harmony_time s) (s_harmony_events s) (s_octave_once s) (s_break_flag s) (s_tempo s) (s_timesig_frac s) (s_timesig_deno s) (s_measure_shift s) (s_play_from s) (s_lineno s) (s_logs s) (s_vars s) (s_rhythm s) (s_rand_seed s) (s_device s) (s_ja s).
 Definition s_set_key_shift (s : song) (v : Z) : song :=
-  mkSong (s_tracks s) (s_cur s) (s_timebase s) (s_key_flag s) v (s_use_key_shift s) (s_v_add s) (s_q_add s) (s_harmony_flag s) (s_harmony_time s) (s_harmony_events s) (s_octave_once s) (s_break_flag s) (s_tempo s) (s_timesig_frac s) (s_timesig_deno s) (s_measure_shift s) (s_play_from s) (s_lineno s) (s_logs s) (s_vars s) (s_rhythm s) (s_rand_seed s) (s_device s).
+  mkSong (s_tracks s) (s_cur s) (s_timebase s) (s_key_flag s) v (s_use_key_shift s) (s_v_add s) (s_q_add s) (s_harmony_flag s) (s_harmony_time s) (s_harmony_events s) (s_octave_once s) (s_break_flag s) (s_tempo s) (s_timesig_frac s) (s_timesig_deno s) (s_measure_shift s) (s_play_from s) (s_lineno s) (s_logs s) (s_vars s) (s_rhythm s) (s_rand_seed s) (s_device s) (s_ja s).
 Definition s_set_use_key_shift (s : song) (v : bool) : song :=
-  mkSong (s_tracks s) (s_cur s) (s_timebase s) (s_key_flag s) (s_key_shift s) v (s_v_add s) (s_q_add s) (s_harmony_flag s) (s_harmony_time s) (s_harmony_events s) (s_octave_once s) (s_break_flag s) (s_tempo s) (s_timesig_frac s) (s_timesig_deno s) (s_measure_shift s) (s_play_from s) (s_lineno s) (s_logs s) (s_vars s) (s_rhythm s) (s_rand_seed s) (s_device s).
+  mkSong (s_tracks s) (s_cur s) (s_timebase s) (s_key_flag s) (s_key_shift s) v (s_v_add s) (s_q_add s) (s_harmony_flag s) (s_harmony_time s) (s_harmony_events s) (s_octave_once s) (s_break_flag s) (s_tempo s) (s_timesig_frac s) (s_timesig_deno s) (s_measure_shift s) (s_play_from s) (s_lineno s) (s_logs s) (s_vars s) (s_rhythm s) (s_rand_seed s) (s_device s) (s_ja s).
 Definition s_set_v_add (s : song) (v : Z) : song :=
-  mkSong (s_tracks s) (s_cur s) (s_timebase s) (s_key_flag s) (s_key_shift s) (s_use_key_shift s) v (s_q_add s) (s_harmony_flag s) (s_harmony_time s) (s_harmony_events s) (s_octave_once s) (s_break_flag s) (s_tempo s) (s_timesig_frac s) (s_timesig_deno s) (s_measure_shift s) (s_play_from s) (s_lineno s) (s_logs s) (s_vars s) (s_rhythm s) (s_rand_seed s) (s_device s).
+  mkSong (s_tracks s) (s_cur s) (s_timebase s) (s_key_flag s) (s_key_shift s) (s_use_key_shift s) v (s_q_add s) (s_harmony_flag s) (s_harmony_time s) (s_harmony_events s) (s_octave_once s) (s_break_flag s) (s_tempo s) (s_timesig_frac s) (s_timesig_deno s) (s_measure_shift s) (s_play_from s) (s_lineno s) (s_logs s) (s_vars s) (s_rhythm s) (s_rand_seed s) (s_device s) (s_ja s).
 Definition s_set_q_add (s : song) (v : Z) : song :=
-  mkSong (s_tracks s) (s_cur s) (s_timebase s) (s_key_flag s) (s_key_shift s) (s_use_key_shift s) (s_v_add s) v (s_harmony_flag s) (s_harmony_time s) (s_harmony_events s) (s_octave_once s) (s_break_flag s) (s_tempo s) (s_timesig_frac s) (s_timesig_deno s) (s_measure_shift s) (s_play_from s) (s_lineno s) (s_logs s) (s_vars s) (s_rhythm s) (s_rand_seed s) (s_device s).
+  mkSong (s_tracks s) (s_cur s) (s_timebase s) (s_key_flag s) (s_key_shift s) (s_use_key_shift s) (s_v_add s) v (s_harmony_flag s) (s_harmony_time s) (s_harmony_events s) (s_octave_once s) (s_break_flag s) (s_tempo s) (s_timesig_frac s) (s_timesig_deno s) (s_measure_shift s) (s_play_from s) (s_lineno s) (s_logs s) (s_vars s) (s_rhythm s) (s_rand_seed s) (s_device s) (s_ja s).
 Definition s_set_harmony_flag (s : song) (v : bool) : song :=
-  mkSong (s_tracks s) (s_cur s) (s_timebase s) (s_key_flag s) (s_key_shift s) (s_use_key_shift s) (s_v_add s) (s_q_add s) v (s_harmony_time s) (s_harmony_events s) (s_octave_once s) (s_break_flag s) (s_tempo s) (s_timesig_frac s) (s_timesig_deno s) (s_measure_shift s) (s_play_from s) (s_lineno s) (s_logs s) (s_vars s) (s_rhythm s) (s_rand_seed s) (s_device s).
+  mkSong (s_tracks s) (s_cur s) (s_timebase s) (s_key_flag s) (s_key_shift s) (s_use_key_shift s) (s_v_add s) (s_q_add s) v (s_harmony_time s) (s_harmony_events s) (s_octave_once s) (s_break_flag s) (s_tempo s) (s_timesig_frac s) (s_timesig_deno s) (s_measure_shift s) (s_play_from s) (s_lineno s) (s_logs s) (s_vars s) (s_rhythm s) (s_rand_seed s) (s_device s) (s_ja s).
 Definition s_set_harmony_time (s : song) (v : Z) : song :=
-  mkSong (s_tracks s) (s_cur s) (s_timebase s) (s_key_flag s) (s_key_shift s) (s_use_key_shift s) (s_v_add s) (s_q_add s) (s_harmony_flag s) v (s_harmony_events s) (s_octave_once s) (s_break_flag s) (s_tempo s) (s_timesig_frac s) (s_timesig_deno s) (s_measure_shift s) (s_play_from s) (s_lineno s) (s_logs s) (s_vars s) (s_rhythm s) (s_rand_seed s) (s_device s).
+  mkSong (s_tracks s) (s_cur s) (s_timebase s) (s_key_flag s) (s_key_shift s) (s_use_key_shift s) (s_v_add s) (s_q_add s) (s_harmony_flag s) v (s_harmony_events s) (s_octave_once s) (s_break_flag s) (s_tempo s) (s_timesig_frac s) (s_timesig_deno s) (s_measure_shift s) (s_play_from s) (s_lineno s) (s_logs s) (s_vars s) (s_rhythm s) (s_rand_seed s) (s_device s) (s_ja s).
 Definition s_set_harmony_events (s : song) (v : list event) : song :=
-  mkSong (s_tracks s) (s_cur s) (s_timebase s) (s_key_flag s) (s_key_shift s) (s_use_key_shift s) (s_v_add s) (s_q_add s) (s_harmony_flag s) (s_harmony_time s) v (s_octave_once s) (s_break_flag s) (s_tempo s) (s_timesig_frac s) (s_timesig_deno s) (s_measure_shift s) (s_play_from s) (s_lineno s) (s_logs s) (s_vars s) (s_rhythm s) (s_rand_seed s) (s_device s).
+  mkSong (s_tracks s) (s_cur s) (s_timebase s) (s_key_flag s) (s_key_shift s) (s_use_key_shift s) (s_v_add s) (s_q_add s) (s_harmony_flag s) (s_harmony_time s) v (s_octave_once s) (s_break_flag s) (s_tempo s) (s_timesig_frac s) (s_timesig_deno s) (s_measure_shift s) (s_play_from s) (s_lineno s) (s_logs s) (s_vars s) (s_rhythm s) (s_rand_seed s) (s_device s) (s_ja s).
 Definition s_set_octave_once (s : song) (v : Z) : song :=
-  mkSong (s_tracks s) (s_cur s) (s_timebase s) (s_key_flag s) (s_key_shift s) (s_use_key_shift s) (s_v_add s) (s_q_add s) (s_harmony_flag s) (s_harmony_time s) (s_harmony_events s) v (s_break_flag s) (s_tempo s) (s_timesig_frac s) (s_timesig_deno s) (s_measure_shift s) (s_play_from s) (s_lineno s) (s_logs s) (s_vars s) (s_rhythm s) (s_rand_seed s) (s_device s).
+  mkSong (s_tracks s) (s_cur s) (s_timebase s) (s_key_flag s) (s_key_shift s) (s_use_key_shift s) (s_v_add s) (s_q_add s) (s_harmony_flag s) (s_harmony_time s) (s_harmony_events s) v (s_break_flag s) (s_tempo s) (s_timesig_frac s) (s_timesig_deno s) (s_measure_shift s) (s_play_from s) (s_lineno s) (s_logs s) (s_vars s) (s_rhythm s) (s_rand_seed s) (s_device s) (s_ja s).
 Definition s_set_break_flag (s : song) (v : Z) : song :=
-  mkSong (s_tracks s) (s_cur s) (s_timebase s) (s_key_flag s) (s_key_shift s) (s_use_key_shift s) (s_v_add s) (s_q_add s) (s_harmony_flag s) (s_harmony_time s) (s_harmony_events s) (s_octave_once s) v (s_tempo s) (s_timesig_frac s) (s_timesig_deno s) (s_measure_shift s) (s_play_from s) (s_lineno s) (s_logs s) (s_vars s) (s_rhythm s) (s_rand_seed s) (s_device s).
+  mkSong (s_tracks s) (s_cur s) (s_timebase s) (s_key_flag s) (s_key_shift s) (s_use_key_shift s) (s_v_add s) (s_q_add s) (s_harmony_flag s) (s_harmony_time s) (s_harmony_events s) (s_octave_once s) v (s_tempo s) (s_timesig_frac s) (s_timesig_deno s) (s_measure_shift s) (s_play_from s) (s_lineno s) (s_logs s) (s_vars s) (s_rhythm s) (s_rand_seed s) (s_device s) (s_ja s).
 Definition s_set_tempo (s : song) (v : Z) : song :=
-  mkSong (s_tracks s) (s_cur s) (s_timebase s) (s_key_flag s) (s_key_shift s) (s_use_key_shift s) (s_v_add s) (s_q_add s) (s_harmony_flag s) (s_harmony_time s) (s_harmony_events s) (s_octave_once s) (s_break_flag s) v (s_timesig_frac s) (s_timesig_deno s) (s_measure_shift s) (s_play_from s) (s_lineno s) (s_logs s) (s_vars s) (s_rhythm s) (s_rand_seed s) (s_device s).
+  mkSong (s_tracks s) (s_cur s) (s_timebase s) (s_key_flag s) (s_key_shift s) (s_use_key_shift s) (s_v_add s) (s_q_add s) (s_harmony_flag s) (s_harmony_time s) (s_harmony_events s) (s_octave_once s) (s_break_flag s) v (s_timesig_frac s) (s_timesig_deno s) (s_measure_shift s) (s_play_from s) (s_lineno s) (s_logs s) (s_vars s) (s_rhythm s) (s_rand_seed s) (s_device s) (s_ja s).
 Definition s_set_timesig_frac (s : song) (v : Z) : song :=
-  mkSong (s_tracks s) (s_cur s) (s_timebase s) (s_key_flag s) (s_key_shift s) (s_use_key_shift s) (s_v_add s) (s_q_add s) (s_harmony_flag s) (s_harmony_time s) (s_harmony_events s) (s_octave_once s) (s_break_flag s) (s_tempo s) v (s_timesig_deno s) (s_measure_shift s) (s_play_from s) (s_lineno s) (s_logs s) (s_vars s) (s_rhythm s) (s_rand_seed s) (s_device s).
+  mkSong (s_tracks s) (s_cur s) (s_timebase s) (s_key_flag s) (s_key_shift s) (s_use_key_shift s) (s_v_add s) (s_q_add s) (s_harmony_flag s) (s_harmony_time s) (s_harmony_events s) (s_octave_once s) (s_break_flag s) (s_tempo s) v (s_timesig_deno s) (s_measure_shift s) (s_play_from s) (s_lineno s) (s_logs s) (s_vars s) (s_rhythm s) (s_rand_seed s) (s_device s) (s_ja s).
 Definition s_set_timesig_deno (s : song) (v : Z) : song :=
-  mkSong (s_tracks s) (s_cur s) (s_timebase s) (s_key_flag s) (s_key_shift s) (s_use_key_shift s) (s_v_add s) (s_q_add s) (s_harmony_flag s) (s_harmony_time s) (s_harmony_events s) (s_octave_once s) (s_break_flag s) (s_tempo s) (s_timesig_frac s) v (s_measure_shift s) (s_play_from s) (s_lineno s) (s_logs s) (s_vars s) (s_rhythm s) (s_rand_seed s) (s_device s).
+  mkSong (s_tracks s) (s_cur s) (s_timebase s) (s_key_flag s) (s_key_shift s) (s_use_key_shift s) (s_v_add s) (s_q_add s) (s_harmony_flag s) (s_harmony_time s) (s_harmony_events s) (s_octave_once s) (s_break_flag s) (s_tempo s) (s_timesig_frac s) v (s_measure_shift s) (s_play_from s) (s_lineno s) (s_logs s) (s_vars s) (s_rhythm s) (s_rand_seed s) (s_device s) (s_ja s).
 Definition s_set_measure_shift (s : song) (v : Z) : song :=
-  mkSong (s_tracks s) (s_cur s) (s_timebase s) (s_key_flag s) (s_key_shift s) (s_use_key_shift s) (s_v_add s) (s_q_add s) (s_harmony_flag s) (s_harmony_time s) (s_harmony_events s) (s_octave_once s) (s_break_flag s) (s_tempo s) (s_timesig_frac s) (s_timesig_deno s) v (s_play_from s) (s_lineno s) (s_logs s) (s_vars s) (s_rhythm s) (s_rand_seed s) (s_device s).
+  mkSong (s_tracks s) (s_cur s) (s_timebase s) (s_key_flag s) (s_key_shift s) (s_use_key_shift s) (s_v_add s) (s_q_add s) (s_harmony_flag s) (s_harmony_time s) (s_harmony_events s) (s_octave_once s) (s_break_flag s) (s_tempo s) (s_timesig_frac s) (s_timesig_deno s) v (s_play_from s) (s_lineno s) (s_logs s) (s_vars s) (s_rhythm s) (s_rand_seed s) (s_device s) (s_ja s).
 Definition s_set_play_from (s : song) (v : Z) : song :=
-  mkSong (s_tracks s) (s_cur s) (s_timebase s) (s_key_flag s) (s_key_shift s) (s_use_key_shift s) (s_v_add s) (s_q_add s) (s_harmony_flag s) (s_harmony_time s) (s_harmony_events s) (s_octave_once s) (s_break_flag s) (s_tempo s) (s_timesig_frac s) (s_timesig_deno s) (s_measure_shift s) v (s_lineno s) (s_logs s) (s_vars s) (s_rhythm s) (s_rand_seed s) (s_device s).
+  mkSong (s_tracks s) (s_cur s) (s_timebase s) (s_key_flag s) (s_key_shift s) (s_use_key_shift s) (s_v_add s) (s_q_add s) (s_harmony_flag s) (s_harmony_time s) (s_harmony_events s) (s_octave_once s) (s_break_flag s) (s_tempo s) (s_timesig_frac s) (s_timesig_deno s) (s_measure_shift s) v (s_lineno s) (s_logs s) (s_vars s) (s_rhythm s) (s_rand_seed s) (s_device s) (s_ja s).
 Definition s_set_lineno (s : song) (v : Z) : song :=
-  mkSong (s_tracks s) (s_cur s) (s_timebase s) (s_key_flag s) (s_key_shift s) (s_use_key_shift s) (s_v_add s) (s_q_add s) (s_harmony_flag s) (s_harmony_time s) (s_harmony_events s) (s_octave_once s) (s_break_flag s) (s_tempo s) (s_timesig_frac s) (s_timesig_deno s) (s_measure_shift s) (s_play_from s) v (s_logs s) (s_vars s) (s_rhythm s) (s_rand_seed s) (s_device s).
+  mkSong (s_tracks s) (s_cur s) (s_timebase s) (s_key_flag s) (s_key_shift s) (s_use_key_shift s) (s_v_add s) (s_q_add s) (s_harmony_flag s) (s_harmony_time s) (s_harmony_events s) (s_octave_once s) (s_break_flag s) (s_tempo s) (s_timesig_frac s) (s_timesig_deno s) (s_measure_shift s) (s_play_from s) v (s_logs s) (s_vars s) (s_rhythm s) (s_rand_seed s) (s_device s) (s_ja s).
 Definition s_set_logs (s : song) (v : list (list ch)) : song :=
-  mkSong (s_tracks s) (s_cur s) (s_timebase s) (s_key_flag s) (s_key_shift s) (s_use_key_shift s) (s_v_add s) (s_q_add s) (s_harmony_flag s) (s_harmony_time s) (s_harmony_events s) (s_octave_once s) (s_break_flag s) (s_tempo s) (s_timesig_frac s) (s_timesig_deno s) (s_measure_shift s) (s_play_from s) (s_lineno s) v (s_vars s) (s_rhythm s) (s_rand_seed s) (s_device s).
+  mkSong (s_tracks s) (s_cur s) (s_timebase s) (s_key_flag s) (s_key_shift s) (s_use_key_shift s) (s_v_add s) (s_q_add s) (s_harmony_flag s) (s_harmony_time s) (s_harmony_events s) (s_octave_once s) (s_break_flag s) (s_tempo s) (s_timesig_frac s) (s_timesig_deno s) (s_measure_shift s) (s_play_from s) (s_lineno s) v (s_vars s) (s_rhythm s) (s_rand_seed s) (s_device s) (s_ja s).
 Definition s_set_vars (s : song) (v : list (list ch * vval)) : song :=
-  mkSong (s_tracks s) (s_cur s) (s_timebase s) (s_key_flag s) (s_key_shift s) (s_use_key_shift s) (s_v_add s) (s_q_add s) (s_harmony_flag s) (s_harmony_time s) (s_harmony_events s) (s_octave_once s) (s_break_flag s) (s_tempo s) (s_timesig_frac s) (s_timesig_deno s) (s_measure_shift s) (s_play_from s) (s_lineno s) (s_logs s) v (s_rhythm s) (s_rand_seed s) (s_device s).
+  mkSong (s_tracks s) (s_cur s) (s_timebase s) (s_key_flag s) (s_key_shift s) (s_use_key_shift s) (s_v_add s) (s_q_add s) (s_harmony_flag s) (s_harmony_time s) (s_harmony_events s) (s_octave_once s) (s_break_flag s) (s_tempo s) (s_timesig_frac s) (s_timesig_deno s) (s_measure_shift s) (s_play_from s) (s_lineno s) (s_logs s) v (s_rhythm s) (s_rand_seed s) (s_device s) (s_ja s).
 Definition s_set_rhythm (s : song) (v : list (Z * list ch)) : song :=
-  mkSong (s_tracks s) (s_cur s) (s_timebase s) (s_key_flag s) (s_key_shift s) (s_use_key_shift s) (s_v_add s) (s_q_add s) (s_harmony_flag s) (s_harmony_time s) (s_harmony_events s) (s_octave_once s) (s_break_flag s) (s_tempo s) (s_timesig_frac s) (s_timesig_deno s) (s_measure_shift s) (s_play_from s) (s_lineno s) (s_logs s) (s_vars s) v (s_rand_seed s) (s_device s).
+  mkSong (s_tracks s) (s_cur s) (s_timebase s) (s_key_flag s) (s_key_shift s) (s_use_key_shift s) (s_v_add s) (s_q_add s) (s_harmony_flag s) (s_harmony_time s) (s_harmony_events s) (s_octave_once s) (s_break_flag s) (s_tempo s) (s_timesig_frac s) (s_timesig_deno s) (s_measure_shift s) (s_play_from s) (s_lineno s) (s_logs s) (s_vars s) v (s_rand_seed s) (s_device s) (s_ja s).
 
 Definition s_set_rand_seed (s : song) (v : Z) : song :=
-  mkSong (s_tracks s) (s_cur s) (s_timebase s) (s_key_flag s) (s_key_shift s) (s_use_key_shift s) (s_v_add s) (s_q_add s) (s_harmony_flag s) (s_harmony_time s) (s_harmony_events s) (s_octave_once s) (s_break_flag s) (s_tempo s) (s_timesig_frac s) (s_timesig_deno s) (s_measure_shift s) (s_play_from s) (s_lineno s) (s_logs s) (s_vars s) (s_rhythm s) v (s_device s).
+  mkSong (s_tracks s) (s_cur s) (s_timebase s) (s_key_flag s) (s_key_shift s) (s_use_key_shift s) (s_v_add s) (s_q_add s) (s_harmony_flag s) (s_harmony_time s) (s_harmony_events s) (s_octave_once s) (s_break_flag s) (s_tempo s) (s_timesig_frac s) (s_timesig_deno s) (s_measure_shift s) (s_play_from s) (s_lineno s) (s_logs s) (s_vars s) (s_rhythm s) v (s_device s) (s_ja s).
 
 Definition s_set_device (s : song) (v : Z) : song :=
-  mkSong (s_tracks s) (s_cur s) (s_timebase s) (s_key_flag s) (s_key_shift s) (s_use_key_shift s) (s_v_add s) (s_q_add s) (s_harmony_flag s) (s_harmony_time s) (s_harmony_events s) (s_octave_once s) (s_break_flag s) (s_tempo s) (s_timesig_frac s) (s_timesig_deno s) (s_measure_shift s) (s_play_from s) (s_lineno s) (s_logs s) (s_vars s) (s_rhythm s) (s_rand_seed s) v.
+  mkSong (s_tracks s) (s_cur s) (s_timebase s) (s_key_flag s) (s_key_shift s) (s_use_key_shift s) (s_v_add s) (s_q_add s) (s_harmony_flag s) (s_harmony_time s) (s_harmony_events s) (s_octave_once s) (s_break_flag s) (s_tempo s) (s_timesig_frac s) (s_timesig_deno s) (s_measure_shift s) (s_play_from s) (s_lineno s) (s_logs s) (s_vars s) (s_rhythm s) (s_rand_seed s) v (s_ja s).
+
+(* Song::set_language *)
+Definition s_set_ja (s : song) (v : bool) : song :=
+  mkSong (s_tracks s) (s_cur s) (s_timebase s) (s_key_flag s) (s_key_shift s) (s_use_key_shift s) (s_v_add s) (s_q_add s) (s_harmony_flag s) (s_harmony_time s) (s_harmony_events s) (s_octave_once s) (s_break_flag s) (s_tempo s) (s_timesig_frac s) (s_timesig_deno s) (s_measure_shift s) (s_play_from s) (s_lineno s) (s_logs s) (s_vars s) (s_rhythm s) (s_rand_seed s) (s_device s) v.
 
 Definition s_set_harmony (s : song) (f : bool) (t : Z) (evs : list event) : song :=
   s_set_harmony_events (s_set_harmony_time (s_set_harmony_flag s f) t) evs.
@@ -149,7 +154,7 @@ Definition s_set_adds (s : song) (vadd qadd : Z) : song := s_set_q_add (s_set_v_
 
 (* Song::new(); the variable table starts with init_variables() (regenerated: coq/gen/VarRows.v, see Compile.v) *)
 Definition song_new : song :=
-  mkSong [track_new 96 0] 0 96 [0;0;0;0;0;0;0;0;0;0;0;0] 0 true 8 1 false 0 [] 0 0 120 4 4 0 (-1) 0 [] [] [] SAKURA_DEFAULT_RANDOM_SEED DEFAULT_DEVICE_NUMBER.
+  mkSong [track_new 96 0] 0 96 [0;0;0;0;0;0;0;0;0;0;0;0] 0 true 8 1 false 0 [] 0 0 120 4 4 0 (-1) 0 [] [] [] SAKURA_DEFAULT_RANDOM_SEED DEFAULT_DEVICE_NUMBER false.
 
 (* add_log: bounded by SAKURA_MAX_LOGS *)
 Definition add_log (s : song) (msg : list ch) : song :=
